@@ -380,7 +380,7 @@ func managerCleanup(p *core.Prog, res *core.Result, rule string) int {
 func c07(p *core.Prog, res *core.Result) {
 	res.Explanation = "C07 (liveness structure): T1 every step (gdbi.Processor.Process) and every channel-returning lookup of the embedded driver closes its output exactly once on every exit of its (joined) producers and reads its input to exhaustion in exactly one process (process-network view, must-close dataflow); " +
 		"T2 no feed-then-drain on bounded fan-out; T3 no synchronous producer of a returned channel; T4 every store scan that feeds a channel consults ctx inside the loop; " +
-		"T5 limit/range derive a cancellable context, return it and cancel inside their input loop; T6 every resource manager reaches Cleanup() on every exit."
+		"T4b no stop condition compares ctx.Err() with context.Canceled alone (a passed deadline must stop the work too); T7 every loop over the channel returned by pipeline.Start/Run/Resume reads it until it is closed (no return/break out of the loop); T5 limit/range derive a cancellable context, return it and cancel inside their input loop; T6 every resource manager reaches Cleanup() on every exit."
 	res.NotDecided = []string{"absence of deadlock in general (needs a model of buffer occupancy)", "that goroutines are released promptly", "cycles introduced by mark/jump (C12)"}
 	res.Rule("T1", "steps and lookups: output closed on every exit by its joined producers; input drained by one process", 40)
 	res.Rule("T2", "no feed-then-drain on bounded fan-out", 0)
@@ -487,6 +487,143 @@ func c07(p *core.Prog, res *core.Result) {
 		}
 	}
 	managerCleanup(p, res, "T6")
+	res.Rule("T4b", "cancellation tests cover every way a context ends", 0)
+	nb := 0
+	for _, fi := range p.AllDecls() {
+		rel := core.RelPkg(fi.Pkg.PkgPath)
+		if fi.Decl.Body == nil || !(rel == "engine/pipeline" || rel == "engine/core" || rel == "engine/logic" || rel == "jobstorage" || rel == "kvgraph" || rel == "kvindex" || rel == "server") || strings.HasSuffix(p.Fset.Position(fi.Decl.Pos()).Filename, "_test.go") {
+			continue
+		}
+		nb += canceledOnly(p, res, fi, "T4b")
+	}
+	if nb == 0 {
+		res.OKTrivial("T4b", "engine+drivers|no Canceled-only test", "-", "no stop condition compares ctx.Err() with context.Canceled alone")
+	}
+	res.Rule("T7", "consumers of a running pipeline read its output to the end", 4)
+	for _, fi := range p.AllDecls() {
+		rel := core.RelPkg(fi.Pkg.PkgPath)
+		if fi.Decl.Body == nil || !(rel == "engine/pipeline" || rel == "server" || rel == "gdbi/schema") || strings.HasSuffix(p.Fset.Position(fi.Decl.Pos()).Filename, "_test.go") {
+			continue
+		}
+		pipelineConsumers(p, res, fi, "T7")
+	}
+}
+
+// canceledOnly (T4b): `ctx.Err() == context.Canceled` as a stop condition is
+// false when the context ended because its deadline passed (a client timeout is
+// propagated as a deadline): the loop keeps running.
+func canceledOnly(p *core.Prog, res *core.Result, fi *core.FuncInfo, rule string) int {
+	info := fi.Pkg.TypesInfo
+	fkey := core.FuncKey(fi.Obj)
+	n := 0
+	ast.Inspect(fi.Decl.Body, func(x ast.Node) bool {
+		be, ok := x.(*ast.BinaryExpr)
+		if !ok || be.Op != token.EQL {
+			return true
+		}
+		isErrCall := func(e ast.Expr) bool {
+			c, ok := ast.Unparen(e).(*ast.CallExpr)
+			if !ok {
+				return false
+			}
+			sel, ok := c.Fun.(*ast.SelectorExpr)
+			return ok && sel.Sel.Name == "Err" && info.TypeOf(sel.X) != nil && strings.HasSuffix(info.TypeOf(sel.X).String(), "context.Context")
+		}
+		isCanceled := func(e ast.Expr) bool {
+			sel, ok := ast.Unparen(e).(*ast.SelectorExpr)
+			if !ok || sel.Sel.Name != "Canceled" {
+				return false
+			}
+			o := info.Uses[sel.Sel]
+			return o != nil && o.Pkg() != nil && o.Pkg().Path() == "context"
+		}
+		if !(isErrCall(be.X) && isCanceled(be.Y) || isErrCall(be.Y) && isCanceled(be.X)) {
+			return true
+		}
+		n++
+		res.Fn(fkey)
+		res.Bad(rule, fmt.Sprintf("%s|Canceled#%d", fkey, n), p.Pos(be.Pos()), fmt.Sprintf("%s stops at %s only when ctx.Err() == context.Canceled: when the request ends because its deadline passed (client timeout) ctx.Err() is context.DeadlineExceeded, the test stays false and the loop runs to the end of its input", fkey, p.Pos(be.Pos())))
+		return true
+	})
+	return n
+}
+
+// pipelineConsumers (T7): a loop over the channel returned by pipeline.Start /
+// Run / Resume is the only consumer of the last step's output; every step
+// goroutine upstream finishes only if that channel is read until it is closed.
+func pipelineConsumers(p *core.Prog, res *core.Result, fi *core.FuncInfo, rule string) int {
+	info := fi.Pkg.TypesInfo
+	fkey := core.FuncKey(fi.Obj)
+	isPipeCall := func(e ast.Expr) bool {
+		c, ok := ast.Unparen(e).(*ast.CallExpr)
+		if !ok {
+			return false
+		}
+		fn := core.CalleeFunc(info, c)
+		if fn == nil || fn.Pkg() == nil || !(strings.HasSuffix(fn.Pkg().Path(), "engine/pipeline") || strings.HasPrefix(fn.Pkg().Path(), core.SelfMod)) {
+			return false
+		}
+		return fn.Name() == "Start" || fn.Name() == "Run" || fn.Name() == "Resume"
+	}
+	defs := localDefs(info, fi.Decl.Body)
+	n := 0
+	ast.Inspect(fi.Decl.Body, func(x ast.Node) bool {
+		rs, ok := x.(*ast.RangeStmt)
+		if !ok || !isChanType(info.TypeOf(rs.X)) {
+			return true
+		}
+		src := rs.X
+		if id, ok := ast.Unparen(src).(*ast.Ident); ok {
+			if d, ok := defs[info.Uses[id]]; ok && d != nil {
+				src = d
+			}
+		}
+		if !isPipeCall(src) {
+			return true
+		}
+		n++
+		res.Fn(fkey)
+		key := fmt.Sprintf("%s|consumer#%d", fkey, n)
+		var leave token.Pos
+		var scan func(node ast.Node, inner bool)
+		scan = func(node ast.Node, inner bool) {
+			ast.Inspect(node, func(y ast.Node) bool {
+				if y == node {
+					return true
+				}
+				switch z := y.(type) {
+				case *ast.FuncLit:
+					return false
+				case *ast.ForStmt:
+					scan(z.Body, true)
+					return false
+				case *ast.RangeStmt:
+					scan(z.Body, true)
+					return false
+				case *ast.SwitchStmt, *ast.TypeSwitchStmt, *ast.SelectStmt:
+					scan(z, true) // a break inside leaves the switch, not the loop
+					return false
+				case *ast.ReturnStmt:
+					if leave == token.NoPos {
+						leave = z.Pos()
+					}
+				case *ast.BranchStmt:
+					if (z.Tok == token.BREAK && (!inner || z.Label != nil) || z.Tok == token.GOTO) && leave == token.NoPos {
+						leave = z.Pos()
+					}
+				}
+				return true
+			})
+		}
+		scan(rs.Body, false)
+		if leave != token.NoPos {
+			res.Bad(rule, key, p.Pos(leave), fmt.Sprintf("%s leaves its loop over the pipeline's output at %s before the channel is closed: the last step blocks on its next send, so do all steps before it, and their goroutines (and the store iterators they hold) never finish", fkey, p.Pos(leave)))
+		} else {
+			res.OK(rule, key, p.Pos(rs.Pos()), "reads the pipeline's output until it is closed")
+		}
+		return true
+	})
+	return n
 }
 
 func c07selftest(st *core.Prog, res *core.Result) {
